@@ -9,6 +9,7 @@
     unsafe.Pointer node anywhere in [v] (the domain of the property). *)
 From Coq Require Import ZArith List Bool.
 From Low Require Import Model.Size Spec.SizeSpec Proofs.SizeProofs.
+From Low Require Import Model.SizeFmt Model.SizeStat Spec.SizeStatSpec Proofs.SizeStatProofs.
 Import ListNotations.
 Open Scope Z_scope.
 
@@ -78,4 +79,71 @@ Example C20_nonvacuous :
              VStruct [VMap []; VPtr (Some (VScalar KComplex128)); VIface None; VSlice None; VArray []]]) in
   supported v /\ sizeof v = Some 196 /\ spec_size v = 196 /\
   StatFirst (Some v) 3 100 = Some (Some 196) /\ Of None = Some 0.
+Proof. vm_compute. repeat split; reflexivity. Qed.
+
+(** ------------------------------------------------------------------------
+    WIDENING 1: the whole report of size.Stat.
+
+    Model: Model/SizeStat.v ([stat]: the recursion on [depth], the three loops
+    with their [maxItem] exits, prefixes put on the first line of each
+    sub-report, one more indentation of all but the first line at every level)
+    over values LABELLED with the type texts, field names and map-key texts
+    that Go's reflect / fmt supply.  Specification: Spec/SizeStatSpec.v (the
+    complete pre-order [listing] of the nodes; an entry is [visible] when its
+    level is <= depth and every item index on its path is < maxItem; each
+    visible entry is [render]ed on its own from its level, label, type and
+    STRUCTURAL SUM).  Unbounded in the size and nesting of the value, any
+    [depth] and [maxItem] in Z (negative depth = no limit), any options.
+    Map entries are listed in the order of [LMap] (Go: the random order of
+    MapKeys; see Run/C20.v for what is compared). *)
+
+(** the report is the rendering of the visible entries, line for line *)
+Theorem C20_Stat_report : forall data depth maxItem o,
+  match data with Some v => lsupported v | None => True end ->
+  StatLines data depth maxItem o = Some (spec_lines data depth maxItem o).
+Proof. exact Stat_report. Qed.
+Print Assumptions C20_Stat_report.
+
+(** ... and the returned string is these lines joined by newlines *)
+Theorem C20_Stat_text : forall data depth maxItem o,
+  match data with Some v => lsupported v | None => True end ->
+  StatText data depth maxItem o = Some (spec_text data depth maxItem o).
+Proof. exact StatText_report. Qed.
+Print Assumptions C20_Stat_text.
+
+(** the first line is "<type>: <n>" with n the number [Of] returns for the same value *)
+Theorem C20_Stat_first_line_text : forall v depth maxItem n,
+  lsupported v -> Of (Some (erase v)) = Some n ->
+  exists rest, StatLines (Some v) depth maxItem no_opt = Some ((ty_of v ++ s_colon ++ dec n) :: rest).
+Proof. exact Stat_first_line_text. Qed.
+Print Assumptions C20_Stat_first_line_text.
+
+(** depth 0: one line *)
+Theorem C20_Stat_depth0 : forall v maxItem o,
+  lsupported v -> StatLines (Some v) 0 maxItem o = Some [hdr o v].
+Proof. exact Stat_depth0. Qed.
+Print Assumptions C20_Stat_depth0.
+
+(** negative depth and maxItem above every item index: every node of the value has its line *)
+Theorem C20_Stat_complete : forall v depth maxItem o,
+  lsupported v -> depth < 0 ->
+  (forall e, In e (listing v 0 [] []) -> forallb (fun i => i <? maxItem) (e_idxs e) = true) ->
+  StatLines (Some v) depth maxItem o = Some (map (render o) (listing v 0 [] [])).
+Proof. exact Stat_complete. Qed.
+Print Assumptions C20_Stat_complete.
+
+(** non-vacuity: struct{a []int32 (3 elements); p interface{} (nil); m map (1 entry)}, depth 2, maxItem 2:
+    8 lines (10 without limits); the third element of the slice is cut by maxItem *)
+Example C20_Stat_nonvacuous :
+  let i32 := LScalar [105; 51; 50] KInt32 in
+  let v := LStruct [84] [([97], LSlice [91; 93] (Some [i32; i32; i32]));
+                         ([112], LIface [73] None);
+                         ([109], LMap [77] [([107], VString [107], LPtr [42] (Some i32))])] in
+  lsupported v /\
+  StatLines (Some v) 2 2 no_opt = Some (spec_lines (Some v) 2 2 no_opt) /\
+  length (spec_lines (Some v) 2 2 no_opt) = 8%nat /\
+  length (spec_lines (Some v) (-1) 100 no_opt) = 10%nat /\
+  nth 3 (spec_lines (Some v) 2 2 no_opt) [] = [32; 32; 32; 32; 32; 32; 32; 32; 49; 58; 32; 105; 51; 50; 58; 32; 52] /\
+  StatText (Some i32) 5 5 {| avgOf := 3; avgUnit := Some (-3) |} =
+    Some [105; 51; 50; 58; 32; 52; 32; 47; 110; 32; 61; 32; 49; 48; 46; 54; 54; 55].
 Proof. vm_compute. repeat split; reflexivity. Qed.
